@@ -16,7 +16,8 @@ KEY_BATCH = "promotion-overwrites-pending"
 
 
 def classify(line):
-    # The known classes (known-findings.txt).  Both need two live endpoints on one interface name at some point
+    # The classes of the two defects found on the tree as first pinned (now `fixed:` lines in known-findings.txt, so
+    # they excuse nothing; the key only names the replay file).  Both need two live endpoints on one interface name at some point
     # ("shared"); the first needs an endpoint that changes its interface name, the second needs a batch that touches
     # two different endpoints between two CompleteDeferredWork calls.  Any failing case without these shapes is new.
     tags = line.get("tags", [])
@@ -72,6 +73,7 @@ def _run(ctx, exe, args, timeout=3600, env=None):
         os.remove(out)
     e = vlib.go_env()
     e.update(VERIF_C44_OUT=out, VERIF_C44_SEED=str(seed), VERIF_C44_N=str(n))
+    e.update(env or {})
     r = subprocess.run(["timeout", str(timeout), exe, "-test.run", "^TestVerifC44$", "-test.count=1"], cwd=ctx.build, env=e,
                        stdout=subprocess.PIPE, stderr=subprocess.STDOUT, text=True)
     if r.returncode != 0 or not os.path.exists(out):
@@ -88,12 +90,76 @@ def run(ctx):
         vlib.go_build, vlib.run_driver = saved
 
 
+def replay(ctx, path):
+    """./check C44 --replay <file>: run the messages of a replay file (as written by this check: the failing case
+    with its structured "ops"), or a bare JSON list [[message,...],...], through the REAL manager of $VERIF_REPO,
+    the model (pinned and fixed) and the oracle; print the verdict batch by batch and the first difference."""
+    obj = json.load(open(path))
+    if isinstance(obj, list):
+        ops = obj
+    else:
+        case = obj.get("case") or obj.get("first_case") or {}
+        ops = case.get("ops")
+        if ops is None:
+            print(json.dumps(obj, indent=1)[:4000])
+            print("replay file holds no message list (kind=%s): nothing to re-run" % obj.get("kind"))
+            return 0
+    ok, log = vlib.coq_build(["theories/Common/CaseLib.vo"] + vlib.prop_targets("C44"))
+    if not ok:
+        print(log[-3000:]); return 1
+    exe, blog = _build(ctx)
+    if exe is None:
+        print(blog[-3000:]); return 1
+    opsf = os.path.join(ctx.build, "replay-ops.json")
+    json.dump(ops, open(opsf, "w"))
+    lines = _run(ctx, exe, ["-n", 1, "-seed", 1], env=dict(VERIF_C44_REPLAY=opsf))
+    line = lines[0]
+    v = os.path.join(ctx.build, "replay_case.v")
+    with open(v, "w") as f:
+        f.write("From Coq Require Import List NArith ZArith String.\nImport ListNotations.\n")
+        f.write("\n".join(CFG["imports"]) + "\n")
+        f.write("Definition c := %s.\n" % line["coq"])
+        f.write("Set Printing Width 100000.\nSet Printing Depth 1000000.\n")
+        f.write("Definition verdict := Eval vm_compute in check_case c.\nPrint verdict.\n")
+        f.write("Definition d := Eval vm_compute in diag c.\nPrint d.\n")
+    okc, out = vlib.coqc(v)
+    if not okc:
+        print(out[-3000:]); return 1
+    import re
+    m = re.search(r"verdict\s*=\s*\((true|false),\s*(true|false)\)", out)
+    agree, oracle = (m.group(1) == "true", m.group(2) == "true") if m else (False, False)
+    md = re.search(r"d\s*=\s*\(\[([^\]]*)\],\s*\((\d+)(?:%nat)?,\s*(\[.*?\])\),\s*\((\d+)(?:%nat)?,\s*(\[.*\])\)\)\s*:", out, flags=re.S)
+    per = [x.strip() == "true" for x in md.group(1).split(";")] if md and md.group(1).strip() else []
+    batches = line["sample"]["batches"]
+    print("replay of %s against %s: %d batch(es)" % (path, ctx.repo, len(batches)))
+    for k, b in enumerate(batches):
+        print("batch %d: %s" % (k, "; ".join(b["ops"]) or "(no messages)"))
+        print("   implementation after CompleteDeferredWork: %s" % json.dumps(b["after-apply"], sort_keys=True))
+        if k < len(per):
+            print("   specification oracle: %s" % ("accepts" if per[k] else "REJECTS"))
+    if md:
+        n = len(batches)
+        kp, kf = int(md.group(2)), int(md.group(4))
+        print("model as first pinned follows the implementation for %d/%d batches; repaired model for %d/%d" % (kp, n, kf, n))
+        if kp < n and kf < n:
+            k = max(kp, kf)
+            print("first difference at batch %d; observations the model allows there (every iteration order):" % k)
+            print("   " + (md.group(5) if kf >= kp else md.group(3))[:3000])
+    print("verdict: model agrees=%s oracle=%s" % (agree, oracle))
+    return 0 if (agree and oracle) else 1
+
+
 MANIFEST = dict(
     category="proof",
     text="Theorems over an executable model of endpointManager.resolveWorkloadEndpoints (pending/active/shadowed maps, "
          "per-endpoint chains, routes, dispatch entries) for every update/remove history and every iteration order of the "
-         "pending map, plus a correspondence run of the model and a specification oracle against the real manager with "
-         "the package's mock tables.",
+         "pending map: the loop terminates with an empty pending map; one active endpoint per interface name whose chains, "
+         "routes (only when admin up) and dispatch entries are exactly what is programmed; for the repaired code the active "
+         "endpoint of an interface is the least live claimant under wlIdsAscending, a claimed interface always has one, "
+         "everything observable is a function of that preferred endpoint (order independence), nothing is left for unused "
+         "names, and the specification oracle accepts every model run (model meets spec); the code as first pinned is "
+         "refuted by two witnesses.  Plus a correspondence run of the model and the oracle against the real manager with the "
+         "package's mock tables, and --replay of a single history.",
     note="Trusted: Coq kernel; hand-written model tied to the code only by the correspondence run; Go test driver and "
          "the package's mocks.",
 )
